@@ -2,6 +2,7 @@ package autologin
 
 import (
 	"net/http"
+	pathlib "path"
 	"strings"
 	"sync"
 
@@ -30,6 +31,9 @@ func (a *AutoLogin) NeedsLogin(r *http.Request, isAuthenticated bool) bool {
 	if !strings.HasPrefix(path, "/") {
 		path = "/" + path
 	}
+
+	// match against the normalised path, so that dot segments cannot escape an ignored subtree
+	path = pathlib.Clean(path)
 
 	if path != "/" {
 		path = strings.TrimSuffix(path, "/")
